@@ -803,7 +803,8 @@ def run(ck: Check):
         "propagate_sound_partial / propagation_past_redefinition_refuted: Model/Propagate.lean is a hand transliteration of register_propagation, "
         "clear_path and of build_def_use on one block (tied by the stream 'register_propagation on one basic block'); blocks are built "
         "from operands that are registers or constants, as the instruction translations build them (no move instruction: a right-hand "
-        "side is never a bare register); for `w op w` (one shared operand object) BinaryExpression.replace visits the object twice, "
+        "side is never a bare register - about a quarter of the generated straight-line methods have a move and are skipped by the stream "
+        "over pipeline blocks); for `w op w` (one shared operand object) BinaryExpression.replace visits the object twice, "
         "the model once - the same unless the replaced register occurs in its own replacement, which cannot happen when every register "
         "is assigned once (the stream emits the shape only there; elsewhere the real pass can build a cyclic expression and die of "
         "RecursionError); in the model of dead_code_elimination graph.remove_ins(loc) is moved in front of update_chain(loc) (which "
@@ -824,6 +825,7 @@ def run(ck: Check):
         c21_jexpr.leg(ck, drv, 2500 if ck.quick and not getattr(ck, "escalated", False) else 40000, workdir)
         c21_jexpr.leg_pipeline(ck, drv, workdir, 300 if ck.quick and not getattr(ck, "escalated", False) else 3000)
         c21_prop.leg(ck, drv, 1500 if ck.quick and not getattr(ck, "escalated", False) else 20000)
+        c21_prop.leg_pipeline(ck, drv, 300 if ck.quick and not getattr(ck, "escalated", False) else 3000)
         leg_s(ck, workdir)
     except javagen.BenchTimeout as e:
         raise ToolFailure("timeout in " + str(e))
